@@ -115,6 +115,15 @@ CHECKS = {
          "histories with positions 0, negative, beyond the end, duplicates, int/list/tuple.",
          "Defect found and repaired (fix: commit): out-of-range positions were not skipped.",
          "Lean 4 proof (induction over call histories, eraseDups algebra) + history-based differential testing"),
+ "C17": ("Lean theorems over ALL sequences, frozen sets and well-formed random outcomes (tapes): pair swap, block swap, full shuffle, charge clustering and "
+         "the charge-type swap each return a List.Perm of the parent (moves written structurally: split/append and three-way dealing, with index "
+         "partition lemmas); full shuffle and the charge-type swap keep every frozen in-range position (positional dealing lemma); chains of moves are "
+         "rearrangements; a carried-over delta-max, the length and the charge counts of a child equal those of a fresh object (composition-only). "
+         "The frozen clause is FALSE for block swap / clustering (witness theorem; known finding F-C17-1). Correspondence: a recording RNG installed in "
+         "the real module, every child checked directly (rearrangement, frozen, len, chargePattern, dmax, parent unchanged) and the recorded tape "
+         "replayed through the model.",
+         "Defects found and repaired (two fix: commits): swapRes and swapRandChargeRes failed for every sequence under the pinned interpreter/NumPy. CPython's random algorithms are abstracted by tapes.",
+         "Lean 4 proof (List.Perm by construction, positional induction) + tape-replay differential testing with a recording RNG"),
  "C20": ("Lean theorems on the character-level model: the rendering is prefix + for residue i (0-based) [space iff 10|i][<br> iff 50|i] + one span with "
          "the residue letter in its palette colour, in order + suffix; stripping tags and blanks recovers the sequence (colours contain no '>'); a "
          "dictionary is accepted iff all 20 one-letter keys are bound to one of the 17 documented names; a rejected update leaves the palette "
